@@ -1549,6 +1549,52 @@ fn gen_c08(o: &mut Out, r: &mut Rng, d: &GDict, tier: &str, cuts: bool) {
     }
 }
 
+/* ---------- real-socket families ---------- */
+
+fn gen_c10(o: &mut Out, r: &mut Rng, tier: &str) {
+    let thorough = tier == "thorough";
+    let faults = ["malformed", "oversized", "short", "stall_midframe", "stall_handshake", "half_hello", "reset", "panic"];
+    let whens = ["before", "during", "after"];
+    // the scenario table: fault kind x moment x listener kind; number of well-behaved clients and of faulty peers vary
+    for tls in [0, 1] {
+        o.case(&format!("listener baseline tls={}", tls));
+        o.line(&format!("lsn tls={} good=2 reqs=4 fault=none when=during nfaulty=0", tls));
+        for f in faults {
+            for w in whens {
+                let reps = if thorough { 4 } else { 1 };
+                for _ in 0..reps {
+                    let good = 1 + r.below(4);
+                    let nf = 1 + r.below(3);
+                    let reqs = 2 + r.below(5);
+                    o.case(&format!("listener fault={} when={} tls={}", f, w, tls));
+                    o.line(&format!("lsn tls={} good={} reqs={} fault={} when={} nfaulty={}", tls, good, reqs, f, w, nf));
+                }
+            }
+        }
+    }
+}
+
+fn gen_c13(o: &mut Out, _r: &mut Rng, tier: &str) {
+    // the full finite table (exhaustive), the address given as host name, IPv4 literal and IPv6 literal
+    let mut id = 0;
+    let reps = if tier == "thorough" { 3 } else { 1 };
+    for _ in 0..reps {
+        for ctls in [0, 1] {
+            for verify in [0, 1] {
+                for stls in [0, 1] {
+                    for cert in ["good", "wrongname", "untrusted"] {
+                        for addr in ["host", "ip", "ip6"] {
+                            id += 1;
+                            o.case(&format!("cell ctls={} verify={} stls={} cert={} addr={}", ctls, verify, stls, cert, addr));
+                            o.line(&format!("tls ctls={} verify={} stls={} cert={} addr={} id={}", ctls, verify, stls, cert, addr, id));
+                        }
+                    }
+                }
+            }
+        }
+    }
+}
+
 /* ---------- client families ---------- */
 
 fn permutations(n: usize) -> Vec<Vec<usize>> {
@@ -2300,6 +2346,8 @@ pub fn generate(family: &str, seed: u64, tier: &str, extra: &[String], w: &mut d
             emit_dict(o.w, &d0);
             gen_c12(&mut o, &mut r, &d0, tier);
         }
+        "c10" => gen_c10(&mut o, &mut r, tier),
+        "c13" => gen_c13(&mut o, &mut r, tier),
         "c14" => gen_c14(&mut o, &mut r, tier),
         "c15" => gen_c15(&mut o, &mut r, tier, extra),
         "c16" => gen_c16(&mut o, &mut r, tier, extra),
